@@ -6,7 +6,8 @@
    of enabled positions (each below bmax), and all interleavings (every sequence of labels accepted by `step`,
    including spurious wake-ups and the caller giving up at any point). *)
 From Coq Require Import Arith List Bool Lia.
-From Snap.Ring Require Import RingModel RingBase RingInv RingProofs.
+From Coq Require Import Permutation.
+From Snap.Ring Require Import RingModel RingBase RingInv RingProofs RingErr.
 Import ListNotations.
 
 Definition wf (P : params) : Prop := 3 <= pn P /\ 1 <= pR P /\ Forall (fun p => p < bmax P) (poss P).
@@ -143,3 +144,55 @@ Proof.
   - unfold wf, Pex; simpl. repeat split; try lia. repeat constructor.
   - eexists. split; [vm_compute; reflexivity|]. vm_compute. repeat split; reflexivity.
 Qed.
+
+(* --- writer error reporting (io.c: latest_state, io->writer_error[], io_writer_bad / io_write_bad) ------------- *)
+(* coq/Ring/RingErr.v extends the ring transition system (unchanged) with the bookkeeping: `estep P oc r`, where
+   oc w p is the outcome of worker->func of writer w on the task of position p (None = done, Some e = error kind e)
+   and r = true is io.c (latest_state reset to DONE after an EMPTY task).  For every schedule (`ereachable`) and
+   every outcome assignment oc: *)
+(* (a) per writer, the failed tasks (position, kind) = the ones accounted by io_writer_step, in order, plus the one
+       just failed and not yet handed to the next call: every failure is accounted exactly once *)
+Theorem C13_err_exactly_once : forall P oc r, 3 <= pn P -> 1 <= pR P -> Forall (fun p => p < bmax P) (poss P) -> r = true ->
+  forall est w, ereachable P oc r est -> w < pW P ->
+  get [] (failedw est) w = get [] (reportedw est) w ++ unrep est w.
+Proof. exact err_exactly_once. Qed.
+(*     everything accounted is either already collected by the caller or still in the counters / position array *)
+Theorem C13_err_collected : forall P oc r, 3 <= pn P -> 1 <= pR P -> Forall (fun p => p < bmax P) (poss P) -> r = true ->
+  forall est, ereachable P oc r est ->
+  Permutation (map snd (catW P (reportedw est))) (got_cnt est ++ cnt est) /\
+  Permutation (map fst (catW P (reportedw est))) (got_bad est ++ bad est).
+Proof. exact err_collected. Qed.
+(*     nothing is lost at stop: once io_stop has returned, collected + pending = the multiset of failed tasks (kinds
+       and positions); the final flush (LFlush: io_write_flush_errors + io_write_bad) empties the pending part *)
+Theorem C13_err_final : forall P oc r, 3 <= pn P -> 1 <= pR P -> Forall (fun p => p < bmax P) (poss P) -> r = true ->
+  forall est, ereachable P oc r est -> cpc (base est) = CEnd ->
+  (forall w, w < pW P -> get [] (failedw est) w = get [] (reportedw est) w) /\
+  Permutation (map snd (catW P (failedw est))) (got_cnt est ++ cnt est) /\
+  Permutation (map fst (catW P (failedw est))) (got_bad est ++ bad est).
+Proof. exact err_final. Qed.
+Theorem C13_err_flush : forall P oc r est est', estep P oc r est LFlush = Some est' ->
+  cnt est' = [] /\ bad est' = [] /\ base est' = base est.
+Proof. exact err_flush. Qed.
+(* (b) nothing is accounted for EMPTY or successful tasks *)
+Theorem C13_err_only_failures : forall P oc r, 3 <= pn P -> 1 <= pR P -> Forall (fun p => p < bmax P) (poss P) -> r = true ->
+  forall est w p e, ereachable P oc r est -> w < pW P -> In (p, e) (get [] (reportedw est) w) -> oc w p = Some e.
+Proof. exact err_only_failures. Qed.
+(* (c) the assert of io_writer_bad cannot fire: at most io_max - 1 positions per writer are pending *)
+Theorem C13_err_bad_bound : forall P oc r, 3 <= pn P -> 1 <= pR P -> Forall (fun p => p < bmax P) (poss P) -> r = true ->
+  forall est, ereachable P oc r est ->
+  length (bad est) <= (pn P - 1) * pW P /\ length (bad est) < pn P * pW P + 1.
+Proof. exact err_bad_bound. Qed.
+(* the seeded change C13c_1 (r = false: no reset after an EMPTY task) violates (a) on a 16-step run: the failure
+   of position 0 is accounted twice, the second time against the skipped stripe of position 1; r = true does not *)
+Example C13_err_c13c_1_double_count :
+  (exists est, erun Pm ocm false (einit Pm) mut_trace = Some est /\
+               get [] (failedw est) 0 = [(0, 2)] /\ get [] (reportedw est) 0 = [(0, 2); (1, 2)] /\
+               cnt est = [2; 2] /\ bad est = [0; 1]) /\
+  (exists est, erun Pm ocm true (einit Pm) mut_trace = Some est /\
+               get [] (failedw est) 0 = [(0, 2)] /\ get [] (reportedw est) 0 = [(0, 2)] /\
+               cnt est = [2] /\ bad est = [0]).
+Proof. exact c13c_1_double_count. Qed.
+Print Assumptions C13_err_exactly_once.
+Print Assumptions C13_err_final.
+Print Assumptions C13_err_only_failures.
+Print Assumptions C13_err_bad_bound.
